@@ -130,8 +130,8 @@ Example C19_checker_discriminates :
       (seq [SAssign 2 (EAlloc 7 0 [1] [] [] []); SAssign 3 (ELoad 2 0); SWrite 10 3 0 []]) in
   let recursive := mkfun 5 "r"%string [(1, "a"%string)] true (SCall 2 5 [1]) in
   (safe [] f_writes_param, safe [] f_rebinds_first, safe [] f_writes_view, safe [] writes_element,
-   safe [recursive] recursive, mutated_params [] f_attr)
-  = (false, true, false, false, false, Some ["a"; "b"]%string).
+   safe [recursive] recursive, mutated_params [] f_attr, safe [] f_loop_scalars)
+  = (false, true, false, false, false, Some ["a"; "b"]%string, false).
 Proof. vm_compute. reflexivity. Qed.
 
 (* non-vacuity of the semantics: the hypotheses of C19_safe_sound are satisfiable and
@@ -159,6 +159,13 @@ Example C19_semantics_needs_po :
     (forall l, reach (st_heap st_ab) 0%nat l -> base (st_heap st_ab) l <> 1%nat).
 Proof. exact attr_writes_b. Qed.
 
+(* the semantics reaches the body of  for i in range(n): a[i] = 0  (a load may yield a new
+   immutable scalar; the container of numbers holds no references in the model) *)
+Example C19_semantics_reaches_loop_over_scalars :
+  exists st', initial f_loop_scalars 1%nat st_one /\
+    exec [] (fn_body f_loop_scalars) st_one Normal st' /\ In 0%nat (st_log st').
+Proof. exact loop_over_scalars_reaches_body. Qed.
+
 Print Assumptions C19_all_entry_points_safe_except_confirmed_defects.
 Print Assumptions C19_safe_sound.
 Print Assumptions C19_report_sound.
@@ -175,3 +182,4 @@ Print Assumptions C19_semantics_sees_write_to_parameter.
 Print Assumptions C19_semantics_sees_write_through_view.
 Print Assumptions C19_accepted_function_runs_and_writes.
 Print Assumptions C19_semantics_needs_po.
+Print Assumptions C19_semantics_reaches_loop_over_scalars.
